@@ -148,7 +148,8 @@ func (f *Formatter) formatComment(comments ast.Comments, sep string, level int) 
 
 	buf.Reset()
 	for i := range comments {
-		if comments[i].PreviousEmptyLines > 0 {
+		// An empty line can only be kept in front of a comment that stands on its own line
+		if comments[i].PreviousEmptyLines > 0 && strings.Contains(sep, "\n") {
 			buf.WriteString("\n")
 		}
 		// #FASTLY macros are not indented
